@@ -89,7 +89,12 @@ class Res:
 
     def items(self, n):
         # an item stream owned by the calling connection (left unfinished when the connection ends)
-        return (i for i in range(n))
+        # (a generator, a plain list iterator or a map object: the latter two have no close() / throw())
+        if n % 3 == 0:
+            return (i for i in range(n))
+        if n % 3 == 1:
+            return iter(list(range(n)))
+        return map(abs, range(n))
 
     def sec(self, tok):
         raise E.SecurityError("denied " + str(tok))
@@ -271,8 +276,8 @@ class ConnWorld(World):
                         r["calls_ok"] += 1
                 for t in spec.get("ow_tracks", []):
                     call(sk, st, "res", "track_ow", (t["n"], sk.conn, t["delay"]), flags=N.FLAG_ONEWAY)
-                for _ in range(spec.get("streams", 0)):
-                    m = call(sk, st, "res", "items", (5,))
+                for j in range(spec.get("streams", 0)):
+                    m = call(sk, st, "res", "items", (5 + (j + sk.conn) % 3,))
                     if m["type"] == N.MSG_RESULT and m["flags"] & N.FLAG_STREAM:
                         ctx.probe("stream_open_at_end")
                 if spec["session"]:
